@@ -25,14 +25,14 @@ def run_one(m, repo, keep=False):
             open(path, "w").write(src.replace(e["old"], e["new"]))
         env = dict(os.environ, GOFLAGS="-mod=mod -trimpath", GOPROXY="off", GOSUMDB="off", GOTOOLCHAIN="local")
         env.pop("GOWORK", None)
-        b = subprocess.run(["go", "build", "./..."], cwd=dst, env=env, capture_output=True, text=True)
+        b = subprocess.run(["go", "build", "./..."], cwd=dst, env=env, capture_output=True, text=True, errors="replace")
         if b.returncode != 0:
             return (m["id"], "invalid", "does not compile: " + b.stderr.strip()[:300])
         results = {}
         props = m["props"] if "props" in m else [m["prop"]]
         if ALL:
             r = subprocess.run([os.path.join(HERE, "bin", "escalint"), "check", "-prop", "all", "-repo", dst, "-verif", HERE, "-n"],
-                               capture_output=True, text=True, env=env)
+                               capture_output=True, text=True, errors="replace", env=env)
             fired = sorted(set(l.split("property=")[1].split()[0] for l in r.stdout.splitlines() if l.startswith("VIOLATION")))
             kinds = sorted(set(l.split()[0] + ":" + l.split()[1] for l in r.stdout.splitlines() if l.startswith(("VIOLATED", "UNDECIDED", "VACUOUS", "ANCHOR-LOST"))))
             expect = m.get("expect", "fire")
@@ -41,7 +41,7 @@ def run_one(m, repo, keep=False):
             return (m["id"], "ok" if ok else "FAIL", "fired=%s extra=%s rules=%s" % (",".join(fired), ",".join(extra), " ".join(kinds)))
         for prop in props:
             r = subprocess.run([os.path.join(HERE, "bin", "escalint"), "check", "-prop", prop, "-repo", dst, "-verif", HERE, "-n"],
-                               capture_output=True, text=True, env=env)
+                               capture_output=True, text=True, errors="replace", env=env)
             results[prop] = (r.returncode, r.stdout)
         expect = m.get("expect", "fire")
         msgs = []
